@@ -29,6 +29,25 @@ def gen_cases(tier, seed):
                 steps.append(('p', h))
         parts.append(('history',) + tuple(steps))
         cases.append(ser(('grammar',) + tuple(parts)))
+    # caseless literals of different lengths tried at one offset: the per-offset fold cache of one parse must not be
+    # seen by the next one (also when the earlier parse consumed nothing)
+    words = [b"ab", b"abc", b"abd", b"a", b"xy", "aé".encode(), "aéz".encode()]
+    for k in range(n // 6):
+        l1, l2 = rnd.choice(words), rnd.choice(words)
+        body = ('seq', ('caseless', ('alt', ('str', l1.hex()), ('str', l2.hex()))), ('eoi',))
+        if rnd.random() < 0.5:
+            body = ('seq', ('opt', ('chr', '21')), body)
+        steps = []
+        for j in range(rnd.randint(2, 6)):
+            w = rnd.choice(words + [l1, l2])
+            w = bytes(rnd.choice([c, c ^ 0x20]) if (65 <= c <= 90 or 97 <= c <= 122) else c for c in w)
+            if rnd.random() < 0.3:
+                w = w + rnd.choice([b"x", b"c", b"d"])
+            if rnd.random() < 0.2:
+                w = b"!" + w
+            steps.append(('p', w.hex() or "-"))
+        parts = [('space', ('nop',)), ('rule', 'R0', body), ('start', 'R0'), ('history',) + tuple(steps)]
+        cases.append(ser(('grammar',) + tuple(parts)))
     return cases
 
 
